@@ -148,6 +148,26 @@ def gen_loop_heating_direction(rng):
     return pr
 
 
+def gen_double_match_site(rng):
+    """A site whose steam header is declared twice on the generation side: a utility of type Both (used in one zone,
+    raised in another) plus a separate Cold-type generation utility half a kelvin away, so that ONE hot utility level
+    is matched by TWO cold utilities when generation and use at the same level are netted for the total-site record."""
+    L = float(rng.randrange(14, 22) * 10)
+    dt = 5.0
+    S = lambda n, z, a, b, q: {"name": n, "zone": z, "t_supply": a, "t_target": b, "heat_flow": q, "dt_cont": dt, "htc": 1.0}
+    U = lambda n, ty, a, b, pr: {"name": n, "type": ty, "t_supply": a, "t_target": b, "heat_flow": 0.0, "dt_cont": dt, "htc": 1.0, "price": pr}
+    ss = [S("A_c1", "A", L - 40, L - 10, float(rng.randrange(3, 12) * 100)), S("A_h1", "A", L - 80, L - 120, float(rng.randrange(1, 5) * 100)),
+          S("B_h1", "B", L + 120, L + 20, float(rng.randrange(3, 12) * 100)), S("B_c1", "B", L - 150, L - 100, float(rng.randrange(1, 4) * 100))]
+    if rng.random() < 0.4:
+        ss.append(S("C_h1", "C", L + 90, L + 30, float(rng.randrange(1, 6) * 100)))
+    e = rng.choice([0.5, 0.25, 0.75])
+    us = [U("HPS", "Hot", L + 220, L + 219, 30.0), U("LPS", "Both", L, L - 1, 10.0), U("LPG", "Cold", L - e, L - e + 1, 0.0),
+          U("CW", "Cold", L - 165, L - 155, 1.0)]
+    if rng.random() < 0.5:
+        us[1], us[2] = us[2], us[1]
+    return {"streams": ss, "utilities": us, "options": {}}
+
+
 def run(ctx: Ctx):
     ctx.rule = ("the service on random stream sets x zone partitions x utility sets (none, isothermal, gliding, several levels): for "
                 "EVERY record returned (direct integration of every zone, total-process sum, total-site) Qh - Qc = cold - hot duty of "
@@ -159,6 +179,7 @@ def run(ctx: Ctx):
     probs += [c03.gen_util_problem(ctx.rng) for _ in range(ctx.n(300, 6000))]
     probs += [gen_balanced_threshold(ctx.rng) for _ in range(ctx.n(60, 1200))]
     probs += [gen_loop_heating_direction(ctx.rng) for _ in range(ctx.n(60, 600))]
+    probs += [gen_double_match_site(ctx.rng) for _ in range(ctx.n(30, 400))]
     for pr in probs:
         nz = len({s["zone"] for s in pr["streams"]})
         ctx.count({"kind": "service", "n_streams": len(pr["streams"]), "zones": sorted({s["zone"] for s in pr["streams"]}), "n_util": len(pr["utilities"])},
